@@ -159,8 +159,12 @@ func run(cfg *runCfg, mode string) int {
 			if strings.HasPrefix(ct.Key, "(") && !strings.HasPrefix(ct.Key, "(*") && (g.lookupIface(ct) || ct.IfaceDecl) {
 				continue
 			}
-			fmt.Fprintf(os.Stderr, "ENGINE-ERROR: contract for unknown function %s (%s:%d)\n", k, ct.File, ct.Line)
-			preErrors++
+			// only a run that checks a property this contract is tagged with is affected
+			// an orphaned contract checks nothing and hides nothing: the function it was written for is
+			// gone, whatever called it is checked against what is there now
+			if cfg.prop == "" || contractMentions(ct, cfg.prop) {
+				fmt.Fprintf(os.Stderr, "NOTE: contract for a function that no longer exists: %s (%s:%d)\n", k, ct.File, ct.Line)
+			}
 			continue
 		}
 		if cfg.prop != "" && !contractMentions(ct, cfg.prop) && !protoMentions(cs, ct.Pkg, cfg.prop) && !objInvMentions(cs, ct.Pkg, cfg.prop) {
@@ -172,6 +176,25 @@ func run(cfg *runCfg, mode string) int {
 		keys = append(keys, k)
 	}
 	sort.Strings(keys)
+	// signatures: of this tree (written into a new baseline) and of the baseline (for renamed parameters)
+	for k, ct := range cs.Funcs {
+		if ct.Pkg == "" || ct.Trusted {
+			continue
+		}
+		if f, ok := g.funcs[k]; ok && f != nil {
+			var ns []string
+			for _, p := range f.Params {
+				ns = append(ns, p.Name())
+			}
+			curSigs[f.String()] = ns
+		}
+	}
+	if mode != "baseline" {
+		var bf baselineFile
+		if loadJSON(filepath.Join(cfg.verif, "spec", "baseline_obligations.json"), &bf) && bf.Signatures != nil {
+			oldSigs = bf.Signatures
+		}
+	}
 
 	var results []*fnResult
 	var allObls []*Obligation
